@@ -15,6 +15,8 @@
 -/
 import Golib.Step.Plain
 import Golib.Step.TxRecord
+import Golib.Step.LegacyCarried
+import Golib.Step.Prefix
 import Golib.Step.ValueInst
 
 namespace C08
@@ -243,7 +245,7 @@ theorem txrecord_roundtrip (x : Rec) (r : Bytes) (h : WF txRecord x) :
 
 /-- the record starts with the version byte 10 -/
 theorem txrecord_version_byte (x : Rec) : (txRecord.write x).head? = some 10 := by
-  simp [txRecord, L.write, Kind.enc, Val.toInt]
+  simp [txRecord, L.write]
 
 /-- well-formedness of a TxRecord spelled out (see `Step.txRecord_WF`) -/
 theorem txrecord_WF (x : Rec)
@@ -254,7 +256,7 @@ theorem txrecord_WF (x : Rec)
         Kind.wf .dec64 (x "McallerPcode") ∧ Kind.wf .dec32 (x "McallerOkind") ∧
         Kind.wf .dec32 (x "McallerOid") ∧ Kind.wf .dec32 (x "McallerSpec") ∧
         Kind.wf .dec32 (x "McallerUrl") ∧ Kind.wf .dec32 (x "MthisSpec"))
-    (hf : fieldsWF valueRT (x "Fields").toMap)
+    (hf : fieldsWF valueRT (x "Fields").toMapN)
     (hl : (txBody.write x).length < 2147483648) : WF txRecord x :=
   txRecord_WF valueRT x hc hm hp hf hl
 
@@ -293,6 +295,137 @@ theorem profile_blob_decodes (e : Env) (nm : String) (ss : List Item) (h : ∀ s
     (hb : e.get nm = .b (toBytesStep ss)) :
     readAll stepTable (e.get nm).toBytes = some (ss.map Item.expected) := by
   rw [hb]; exact stream_roundtrip ss h
+
+/-! ### encodings of older agents: what `TxRecord.Read` accepts besides today's, and what it returns -/
+
+/-- a TxRecord written with version byte `w` (10..255), multi-trace presence byte `g` (1..255) and
+    caller flag `f` (6; the older 1, 3, 4, 5; or a flag the reader has no case for) is consumed exactly
+    and read as `expectAlt` -/
+theorem txrecord_legacy_roundtrip (w g f : Nat) (x : Rec) (r : Bytes)
+    (h : txRecord.WFAlt valueRT (legacyChoice w g f) x []) :
+    txRecord.read [] (txRecord.writeAlt (legacyChoice w g f) x ++ r)
+      = some (txRecord.expectAlt (legacyChoice w g f) x [], r) :=
+  L.roundtrip_alt valueRT txRecord _ x [] r h
+
+/-- well-formedness of such an encoding spelled out -/
+theorem txrecord_legacy_WF (w g f : Nat) (x : Rec)
+    (hw : 10 ≤ w ∧ w < 256) (hg : 0 < g ∧ g < 256) (hf : 0 < f ∧ f < 256)
+    (hc : ∀ p ∈ txAlways, p.2.wf (x p.1))
+    (hm : (x "Mtid").toInt ≠ 0 →
+        Kind.wf .dec64 (x "Mtid") ∧ Kind.wf .dec32 (x "Mdepth") ∧ Kind.wf .dec64 (x "Mcaller"))
+    (hp : (x "McallerPcode").toInt ≠ 0 →
+        Kind.wf .dec64 (x "McallerPcode") ∧ Kind.wf .dec32 (x "McallerOkind") ∧
+        Kind.wf .dec32 (x "McallerOid") ∧ Kind.wf .dec32 (x "McallerSpec") ∧
+        Kind.wf .dec32 (x "McallerUrl") ∧ Kind.wf .dec32 (x "MthisSpec"))
+    (hfl : fieldsWF valueRT (x "Fields").toMapN)
+    (hl : (txBody.writeAlt (legacyChoice w g f) x).length < 2147483648) :
+    txRecord.WFAlt valueRT (legacyChoice w g f) x [] :=
+  txRecord_WFAlt valueRT w g f x hw hg hf hc hm hp hfl hl
+
+/-- what it returns: everything a current record carries (whatever the version byte and the
+    multi-trace presence byte were), the caller identity cut down to the fields the flag carries:
+    6 → all six; 1 → pcode; 3 → pcode, spec, url; 4 → + this-spec; 5 → + oid; any other flag → none -/
+theorem txrecord_legacy_carried (w g f : Nat) (x : Rec) :
+    TxCarriedK (callerKeeps f) x (txRecord.expectAlt (legacyChoice w g f) x []) :=
+  txRecord_legacy_carried w g f x
+
+/-- the caller flags and what each carries -/
+theorem caller_flags :
+    callerKeeps 6 = callerAll ∧ callerKeeps 1 = ["McallerPcode"] ∧
+    callerKeeps 3 = ["McallerPcode", "McallerSpec", "McallerUrl"] ∧
+    callerKeeps 4 = ["McallerPcode", "McallerSpec", "McallerUrl", "MthisSpec"] ∧
+    callerKeeps 5 = ["McallerPcode", "McallerOid", "McallerSpec", "McallerUrl", "MthisSpec"] ∧
+    ∀ f, f ∉ [1, 3, 4, 5, 6] → callerKeeps f = [] := by
+  refine ⟨by decide, by decide, by decide, by decide, by decide, ?_⟩
+  intro f hf
+  simp only [List.mem_cons, List.mem_nil_iff, or_false, not_or] at hf
+  simp [callerKeeps, hf.1, hf.2.1, hf.2.2.1, hf.2.2.2.1, hf.2.2.2.2]
+
+/-- today's writer is the instance "no choice" of the legacy writer -/
+theorem txrecord_current_is_legacy (x : Rec) : txRecord.writeAlt (fun _ => none) x = txRecord.write x :=
+  L.writeAlt_none txRecord x
+
+/-- a version byte below 10 is refused whatever follows (Go: panic "not supported version TxRecord") -/
+theorem txrecord_refuses_old_version (w : Nat) (hw : w < 10) (bs : Bytes) :
+    txRecord.read [] (w :: bs) = none :=
+  ver_refuses 10 10 _ [] w bs hw (by omega)
+
+/-- a nil value inside `Fields` is written as the key with an empty TextValue (and so reads back as one) -/
+theorem fields_nil_value_written_as_empty_text (k : Bytes) (kvs : List (Bytes × Option Value)) :
+    encFields (Val.toMapN (.mn (some ((k, none) :: kvs)))) =
+    encFields (Val.toMapN (.mn (some ((k, some (.text [])) :: kvs)))) := rfl
+
+/-! ### what `ReadStep` / `service.ToObject` do on type codes without a constructor -/
+
+theorem lookup_step_none (c : Nat) (hc : c ∉ [17, 18, 3, 5, 19, 6, 7, 15, 8]) : lookupLayout stepTable c = none := by
+  simp only [List.mem_cons, List.mem_nil_iff, or_false, not_or] at hc
+  obtain ⟨h1, h2, h3, h4, h5, h6, h7, h8, h9⟩ := hc
+  have e1 : (c == 17) = false := by simpa using h1
+  have e2 : (c == 18) = false := by simpa using h2
+  have e3 : (c == 3) = false := by simpa using h3
+  have e4 : (c == 5) = false := by simpa using h4
+  have e5 : (c == 19) = false := by simpa using h5
+  have e6 : (c == 6) = false := by simpa using h6
+  have e7 : (c == 7) = false := by simpa using h7
+  have e8 : (c == 15) = false := by simpa using h8
+  have e9 : (c == 8) = false := by simpa using h9
+  simp [lookupLayout, stepTable, List.lookup, e1, e2, e3, e4, e5, e6, e7, e8, e9]
+
+/-- `ReadStep` decodes a step iff its type code is one of the nine in `CreateStep`; on any other
+    code there is no object to read into (Go: nil dereference) -/
+theorem readstep_unregistered_code_fails (c : Nat) (hc : c ∉ [17, 18, 3, 5, 19, 6, 7, 15, 8]) (h256 : c < 256)
+    (bs : Bytes) : readOne stepTable (c :: bs) = none := by
+  unfold readOne
+  rw [D.bind_some (rdU1_cons c bs h256), lookup_step_none c hc]
+  rfl
+
+/-- MessageStepX answers type code 22, which `CreateStep` does not know: a stream holding one
+    cannot be read beyond it -/
+theorem readstep_messagestepx_code_fails (x : Rec) (r : Bytes) :
+    readOne stepTable (Item.bytes ⟨22, messageStepX, x⟩ ++ r) = none :=
+  readstep_unregistered_code_fails 22 (by decide) (by decide) _
+
+/-- SqlStep_3 answers type code 18 (STEP_SQL_X): behind that code `ReadStep` applies SqlStepX's reader -/
+theorem readstep_code18_reads_sqlstepx (bs : Bytes) :
+    readOne stepTable (18 :: bs) = D.bind (sqlStepX.read []) (fun e => D.pure (18, e)) bs := by
+  unfold readOne
+  rw [D.bind_some (rdU1_cons 18 bs (by decide))]
+  rfl
+
+/-- … which does not give the step back: the all-zero SqlStep_3 (11 bytes after the code) is not even
+    a complete SqlStepX -/
+theorem sqlstep3_behind_code18_misread :
+    (readOne stepTable (Item.bytes ⟨18, sqlStep3, fun _ => .i 0⟩)).isNone = true := by decide
+
+/-- `service.ToObject`: only the type codes 1, 2, 3 have a constructor -/
+theorem toobject_unknown_type_fails (c : Nat) (hc : c ∉ [1, 2, 3]) (h256 : c < 256) (bs : Bytes) :
+    readOne serviceTable (c :: bs) = none := by
+  simp only [List.mem_cons, List.mem_nil_iff, or_false, not_or] at hc
+  have e1 : (c == 1) = false := by simpa using hc.1
+  have e2 : (c == 2) = false := by simpa using hc.2.1
+  have e3 : (c == 3) = false := by simpa using hc.2.2
+  unfold readOne
+  rw [D.bind_some (rdU1_cons c bs h256)]
+  simp [lookupLayout, serviceTable, List.lookup, e1, e2, e3, D.fail]
+
+/-! ### truncated streams -/
+
+/-- a strict prefix of one registered step never decodes -/
+theorem step_prefix_fails (s : Item) (h : StepOK s) (q a : Bytes) (ha : a ≠ []) (hq : q ++ a = s.bytes) :
+    readOne stepTable q = none :=
+  tagged_prefix_fails valueRT stepTable (by decide) s h q a ha hq
+
+/-- reading a strict prefix of `ToBytesStep steps` until the input is used up fails, or returns a
+    strict prefix of the steps (those that fit completely) — never a wrong or fabricated step -/
+theorem stream_prefix (ss : List Item) (h : ∀ s ∈ ss, StepOK s) (q a : Bytes) (ha : a ≠ [])
+    (hq : q ++ a = toBytesStep ss) :
+    readAll stepTable q = none ∨ ∃ k, k < ss.length ∧ readAll stepTable q = some ((ss.take k).map Item.expected) :=
+  Step.stream_prefix valueRT stepTable (by decide) ss h q a ha hq
+
+/-- the same for service records -/
+theorem service_prefix_fails (s : Item) (h : s.ok valueRT serviceTable) (q a : Bytes) (ha : a ≠ [])
+    (hq : q ++ a = s.bytes) : readOne serviceTable q = none :=
+  tagged_prefix_fails valueRT serviceTable (by decide) s h q a ha hq
 
 /-! ### what the code as found does (the three repairs proposed in proposed/C08, one known finding) -/
 
@@ -398,6 +531,31 @@ example : WF txRecord (fun nm => if nm = "IpAddr" then .i 5 else sample nm) := b
   · intro _; simp (decide := true) [sample, Kind.wf, inRange_4, inRange_8]
   · show fieldsWF valueRT (some [([107], .dec 64), ([108], .bool false)])
     exact ⟨by decide, (by decide : Value.wfKVs _ = true), by decide⟩
+
+/-- … and those of `txrecord_legacy_roundtrip` by the same record as an agent with version byte 12,
+    multi-trace presence byte 7 and caller flag 3 wrote it -/
+example : txRecord.WFAlt valueRT (legacyChoice 12 7 3) (fun nm => if nm = "IpAddr" then .i 5 else sample nm) [] := by
+  refine txrecord_legacy_WF 12 7 3 _ (by decide) (by decide) (by decide) ?_ ?_ ?_ ?_ (by decide +kernel)
+  · intro p hp
+    simp only [txAlways, List.mem_cons, List.mem_nil_iff, or_false] at hp
+    rcases hp with rfl | rfl | rfl | rfl | rfl | rfl | rfl | rfl | rfl | rfl | rfl | rfl | rfl | rfl | rfl | rfl | rfl |
+      rfl | rfl | rfl | rfl | rfl | rfl | rfl | rfl | rfl | rfl | rfl | rfl | rfl | rfl | rfl | rfl | rfl <;>
+      simp (decide := true) [sample, Kind.wf, inRange_4, inRange_8]
+  · intro _; simp (decide := true) [sample, Kind.wf, inRange_4, inRange_8]
+  · intro _; simp (decide := true) [sample, Kind.wf, inRange_4, inRange_8]
+  · show fieldsWF valueRT (some [([107], .dec 64), ([108], .bool false)])
+    exact ⟨by decide, (by decide : Value.wfKVs _ = true), by decide⟩
+
+/-- the legacy encoding differs from today's: version byte 12, presence byte 7, caller flag 3 -/
+example : (txRecord.writeAlt (legacyChoice 12 7 3) (fun nm => if nm = "Mtid" ∨ nm = "McallerPcode" then .i 1 else .i 0)).head? = some 12
+    ∧ txRecord.writeAlt (legacyChoice 12 7 3) (fun nm => if nm = "Mtid" ∨ nm = "McallerPcode" then .i 1 else .i 0)
+      ≠ txRecord.write (fun nm => if nm = "Mtid" ∨ nm = "McallerPcode" then .i 1 else .i 0) := by decide
+
+/-- a strict prefix: the first 9 of the 10 bytes of a DBC step do not decode; the 10 bytes of the first
+    step of a two-step stream decode to that step alone -/
+example : readOne stepTable [8, 1, 1, 0, 0, 2, 255, 127, 0] = none := by decide
+example : (readAll stepTable [8, 1, 1, 0, 0, 2, 255, 127, 0, 0]).map List.length = some 1 := by decide
+example : (readAll stepTable [8, 1, 1, 0, 0, 2, 255, 127, 0, 0, 6, 1, 1]).isNone = true := by decide
 
 /-- a MessageStepX with a two-entry attribute map (the shape of the repository's only round-trip test) -/
 example : WF messageStepX sample := by
